@@ -72,7 +72,7 @@ EndRead == /\ IsEvent("api_end") /\ call # Idle /\ call.kind \in {"read", "reada
               \/ /\ p.present /\ p.len >= 4 /\ Required \subseteq SetOf(p.attrs)
                  /\ Ev.res = "ok" /\ Ev.outcome = "value" /\ Ev.got = p.val
                  /\ (call.kind = "readattrs" \/ call.api = "legacy" => SetOf(Ev.gattrs) = SetOf(p.attrs))
-                 /\ (call.api = "obj" => Ev.unmarshal_called)
+                 /\ (call.api \in {"obj", "objtyped"} => Ev.unmarshal_called)
                  /\ (call.api = "legacytyped" => Ev.outcome = "value")
            /\ call' = Idle /\ fslog' = <<>>
 Conform == Reset \/ Begin \/ Fs \/ EndWrite \/ EndWriteFailed \/ EndWriteOpenFailed \/ EndRead
